@@ -2,6 +2,8 @@ import Drpc.Lemmas.Delivery
 import Drpc.Props.C09
 import Drpc.Lemmas.StreamPktBuf
 import Drpc.Lemmas.StreamInvStep
+import Drpc.Lemmas.StreamSendFlush
+import Drpc.Lemmas.Roundtrip
 /-
   C01 — Per-stream delivery is in-order, exactly-once, uncorrupted and complete: the pure data path.
   Property theorems only; helper lemmas live in Drpc/Lemmas/Delivery.lean.
@@ -197,5 +199,166 @@ example :
     s.sh.pset = false ∧ s.sh.pheld = false ∧ (step s 0).isSome = true := by
   refine ⟨reach_call _ (reach_call _ (Reach.init {}) ⟨_, rfl⟩) ⟨.nil, by decide⟩, by decide, by decide, by decide,
     by decide, by decide, by decide, by decide⟩
+
+/-! ## Level 3: the sender side of "delivery is complete", on the atomic-step stream model, for
+    every reachable state.  Ghosts: `started` = one record per `id.Message++` (message id, kind,
+    payload, frames, the call), `sendRets` = the result of every send section (MsgSend / RawWrite)
+    at its `write.Unlock`: (thread, message id, result, "the section ended with rawFlushLocked").
+    All under the no-wrap hypothesis `midN < 2^64` on the 64-bit message counter. -/
+
+/-- The recorded result is the result of the call: at the `write.Unlock` of a send section
+    (`checks`; not MsgRecv's inner flush) the result `r` is appended to `sendRets` under the
+    section's message id, and `r` is what the call returns (`retOf`, see
+    `C05.reported_result_is_returned`). -/
+theorem send_result_recorded {s s' : St} {t : Tid} {sec : WSec} {r : Ret} (hp : s.pc t = .unlockW sec r)
+    (hck : sec.checks = true) (hra : sec.recvAfter = none) (hs : step s t = some s') :
+    s'.sh.sendRets = s.sh.sendRets ++ [(t, s.sh.mid, r, decide (sec.flush = .checked))] ∧
+    retOf (s'.pc t) = some r := by
+  simp only [step, hp, stepPC, hck, hra, if_true] at hs
+  cases hs
+  simp
+
+/-- (1) A MsgSend that returned nil has reached the wire.  If a send section of thread `t` with
+    message id `m` ended with result nil (`(t, m, .nil, fl) ∈ sendRets`), then the message was
+    started (`rec`), ALL its frames were appended (`hist` restricted to `m` = `rec.frames`), and if
+    the section ended with the flush (`fl = true`) all of them are in COMPLETED transport writes:
+    `wire.flatten` restricted to `m` = `rec.frames` — every frame, in order, exactly once.
+    For a MsgSend (`rec.call = msgSend d _`) the frames are `framesOf opts m KindMessage d` and
+    `fl` is true exactly when the stream is not in ManualFlush mode. -/
+theorem send_nil_means_on_wire {s : St} (h : Reach s) (hnw : s.sh.midN < 2^64) {t : Tid} {m : U64} {fl : Bool}
+    (hx : (t, m, Ret.nil, fl) ∈ s.sh.sendRets) :
+    ∃ rec ∈ s.sh.started, rec.mid = m ∧
+      s.sh.hist.filter (fun f => f.mid == m) = rec.frames ∧
+      (fl = true → s.sh.wire.flatten.filter (fun f => f.mid == m) = rec.frames) ∧
+      (∀ d p, rec.call = .msgSend d p →
+        rec.frames = framesOf s.opts m kindMessage d ∧ fl = !s.opts.manualFlush) := by
+  obtain ⟨rec, hr, hm, hh, hw⟩ := (reach_msgs h hnw).rets _ hx rfl
+  simp only at hm hw
+  subst hm
+  refine ⟨rec, hr, rfl, hh, ?_, ?_⟩
+  · intro hfl
+    have p1 := hw hfl
+    have hl : s.sh.wire.flatten <+: live s.sh := ⟨inflightFrames s.sh ++ s.sh.wbuf, by simp [live]⟩
+    have p2 : s.sh.wire.flatten.filter (midIs rec.mid) <+: rec.frames :=
+      hh ▸ (hl.filter _).trans ((reach_whole h hnw).pre rec.mid)
+    exact p2.eq_of_length_le p1.length_le
+  · intro d p hc
+    have hfl := (reach_msgFlush h hnw).retsF _ hx rec hr rfl (by simp [hc])
+    refine ⟨?_, hfl⟩
+    rcases (reach_msgs h hnw).sOK rec hr with ⟨p', h1, _, h3⟩ | ⟨h1, _⟩ | ⟨h1, _⟩
+    · rw [hc] at h1; cases h1; exact h3
+    · rw [hc] at h1; cases h1
+    · rw [hc] at h1; cases h1
+
+/-- In particular, the form asked for: a `MsgSend d` that was given message id `m` and returned nil
+    on a stream that is not in ManualFlush mode has every frame of `framesOf opts m KindMessage d`
+    in completed transport writes, in order, exactly once. -/
+theorem msgSend_nil_means_on_wire {s : St} (h : Reach s) (hnw : s.sh.midN < 2^64) {t : Tid} {m : U64} {fl : Bool}
+    (hx : (t, m, Ret.nil, fl) ∈ s.sh.sendRets) (hmf : s.opts.manualFlush = false)
+    {rec : Started} (hr : rec ∈ s.sh.started) (hm : rec.mid = m) {d : Bytes} {p : Bool}
+    (hc : rec.call = .msgSend d p) :
+    s.sh.wire.flatten.filter (fun f => f.mid == m) = framesOf s.opts m kindMessage d := by
+  obtain ⟨rec', hr', hm', _, hw, hcall⟩ := send_nil_means_on_wire h hnw hx
+  have : rec' = rec := pairwise_mid_inj (reach_msgs h hnw).sInc hr' hr (hm'.trans hm.symm)
+  subst this
+  obtain ⟨h1, h2⟩ := hcall d p hc
+  rw [hw (by rw [h2, hmf]; rfl), h1]
+
+/-- With ManualFlush (and for RawWrite) the frames are buffered: when the send section has appended
+    everything and nothing failed — in particular at the moment it is about to return nil — all
+    frames of its message are in completed writes, the write in flight, or the writer's buffer
+    (`live`), in order, exactly once … -/
+theorem send_nil_means_buffered_or_on_wire {s : St} (h : Reach s) (hnw : s.sh.midN < 2^64) {t : Tid}
+    (hc : complete (s.pc t) = true) :
+    ∃ rec, s.sh.started.getLast? = some rec ∧ rec.mid = s.sh.mid ∧
+      s.sh.hist.filter (fun f => f.mid == s.sh.mid) = rec.frames ∧
+      (live s.sh).filter (fun f => f.mid == s.sh.mid) = rec.frames :=
+  (reach_msgs h hnw).done t hc
+
+/-- … and the next successful transport write (a later RawFlush, the flush of a later MsgSend or of
+    MsgRecv, or a WriteFrame reaching the threshold) moves everything buffered to the wire. -/
+theorem successful_write_moves_buffer_to_wire {s s' : St} (h : Reach s) (he : envStep s (.release none) = some s') :
+    live s'.sh = live s.sh ∧ s'.sh.wbuf = [] ∧ s'.sh.inflight = none ∧ live s'.sh = s'.sh.wire.flatten := by
+  obtain ⟨t, frs, hi, hs⟩ := release_ok he
+  have hb := reach_inflightBuf h (by simp [hi])
+  rw [hs]
+  refine ⟨live_relSh_ok _ t frs hi, by simp [relSh, hb], by simp [relSh], ?_⟩
+  simp [live, relSh, inflightFrames, hb]
+
+theorem packetOf_kind_ne (o : Opts) (m : U64) (c : Call) : (packetOf o m c).kind ≠ kindMessage := by
+  cases c <;> simp [packetOf, kindMessage, kindClose, kindError, kindCloseSend, kindCancel]
+
+/-- (2) What is on the wire was sent.  Every frame `f` in a completed transport write belongs to a
+    started message `rec` (same id); the frames of that id on the wire are an initial segment of
+    `rec.frames` (whole, cut short by a failed write or a refused send, never more); and if `f` is
+    a KindMessage frame, `rec` was started by `MsgSend rec.data` (or `RawWrite KindMessage rec.data`),
+    its frames are the split of that payload, and concatenating their data gives the payload back. -/
+theorem wire_is_concatenation_of_sent_messages {s : St} (h : Reach s) (hnw : s.sh.midN < 2^64) :
+    ∀ f ∈ s.sh.wire.flatten, ∃ rec ∈ s.sh.started, rec.mid = f.mid ∧
+      s.sh.wire.flatten.filter (fun g => g.mid == f.mid) <+: rec.frames ∧
+      (f.kind = kindMessage →
+        ((∃ p, rec.call = .msgSend rec.data p) ∨ rec.call = .rawWrite kindMessage rec.data) ∧
+        rec.frames = framesOf s.opts rec.mid kindMessage rec.data ∧
+        (rec.frames.map (·.data)).flatten = rec.data) := by
+  intro f hf
+  have ms := reach_msgs h hnw
+  have hl : s.sh.wire.flatten <+: live s.sh := ⟨inflightFrames s.sh ++ s.sh.wbuf, by simp [live]⟩
+  have hfh : f ∈ s.sh.hist := (hl.sublist.trans (reach_sublist h)).subset hf
+  obtain ⟨rec, hr, hm⟩ := ms.cover f hfh
+  have hpre : s.sh.wire.flatten.filter (midIs rec.mid) <+: rec.frames :=
+    ((hl.filter _).trans ((reach_whole h hnw).pre rec.mid)).trans (ms.pre rec hr)
+  have hfr : f ∈ rec.frames := by
+    apply hpre.subset
+    exact List.mem_filter.mpr ⟨hf, by simp [midIs, hm]⟩
+  refine ⟨rec, hr, hm, hm ▸ hpre, ?_⟩
+  intro hk
+  rcases ms.sOK rec hr with ⟨p, h1, h2, h3⟩ | ⟨h1, h3⟩ | ⟨_, h3, h4⟩
+  · exact ⟨.inl ⟨p, h1⟩, h3, by rw [h3]; exact splitFrames_concat _ _ _ _ _ _⟩
+  · have hkk : rec.kind = kindMessage := by
+      rw [h3] at hfr
+      rw [← (splitFrames_header _ _ _ _ _ _ f hfr).2.2.1, hk]
+    rw [hkk] at h1 h3
+    exact ⟨.inr h1, h3, by rw [h3]; exact splitFrames_concat _ _ _ _ _ _⟩
+  · exfalso
+    rw [h3] at hfr
+    simp only [List.mem_singleton] at hfr
+    rw [hfr] at hk
+    exact packetOf_kind_ne _ _ _ hk
+
+/-- … each started message has its own id, increasing in the order the calls took them (so each
+    payload appears under one id only), and the frames on the wire are in the order of their ids. -/
+theorem wire_in_message_id_order {s : St} (h : Reach s) (hnw : s.sh.midN < 2^64) :
+    s.sh.started.Pairwise (fun a b => a.mid.toNat < b.mid.toNat) ∧
+    s.sh.wire.flatten.Pairwise (fun a b => a.mid.toNat ≤ b.mid.toNat) := by
+  refine ⟨(reach_msgs h hnw).sInc, ?_⟩
+  have hl : s.sh.wire.flatten <+: live s.sh := ⟨inflightFrames s.sh ++ s.sh.wbuf, by simp [live]⟩
+  have hwf : WellFormed s.opts.sid s.sh.hist = true := WellFormed.prefix ((reach_wire h).wf hnw 0)
+  have hp := (WellFormed.spec hwf).2.sublist (hl.sublist.trans (reach_sublist h))
+  refine hp.imp ?_
+  intro a b hab
+  rcases hab with h1 | ⟨h1, _, _⟩
+  · omega
+  · rw [h1]; exact Nat.le_refl _
+
+/-- The complete direction: as long as no transport write has failed, nothing appended is lost —
+    completed writes ++ write in flight ++ buffer is exactly the history; with
+    `send_nil_means_on_wire` every message whose (flushing) send returned nil is whole on the wire. -/
+theorem no_failure_nothing_lost {s : St} (h : Reach s) (hok : s.sh.failed = false) : live s.sh = s.sh.hist :=
+  (reach_wire h).flat hok
+
+/-- non-vacuity: writer threshold 0, `MsgSend [7]` = one frame `f`; the transport write succeeds and
+    the call returns nil: the result is recorded with the flush flag, the message is started,
+    appended and on the wire — the hypotheses of `send_nil_means_on_wire` /
+    `msgSend_nil_means_on_wire` hold in a reachable state. -/
+theorem send_nil_example :
+    call SendEx.g0 0 (.msgSend [7#8]) = SendEx.g1 ∧ envStep SendEx.g1 (.release none) = some SendEx.g2 ∧
+    runSolo 64 SendEx.g2 0 = SendEx.g3 ∧ Reach SendEx.g3 ∧ SendEx.g3.sh.midN < 2^64 ∧
+    SendEx.g3.pc 0 = .done .nil ∧ (0, 1#64, Ret.nil, true) ∈ SendEx.g3.sh.sendRets ∧
+    SendEx.g3.opts.manualFlush = false ∧ SendEx.rec1 ∈ SendEx.g3.sh.started ∧
+    SendEx.rec1.call = .msgSend [7#8] false ∧ SendEx.g3.sh.wire = [[SendEx.f]] := by
+  have r1 : Reach SendEx.g1 := SendEx.g01 ▸ reach_call _ (Reach.init _) ⟨_, rfl⟩
+  have r3 : Reach SendEx.g3 := SendEx.g23 ▸ reach_runSolo _ _ (r1.env SendEx.g12)
+  exact ⟨SendEx.g01, SendEx.g12, SendEx.g23, r3, by decide, rfl, by simp [SendEx.g3], rfl,
+    by simp [SendEx.g3], rfl, rfl⟩
 
 end Drpc.Props.C01
